@@ -701,7 +701,7 @@ def write_evidence(pid, tier, seed, level, results, known_hits, viol, undec, wal
         if o["status"] == "discharged":
             n_dis += k
     cbmc_total = sum(o.get("cbmc_checks", 0) for o in complete + bounded)
-    nontrivial = sum(1 for o in complete + bounded if o["status"] == "discharged" and (o["backend"].startswith("verus") or o.get("covers", 0) > 0 or o.get("cbmc_checks", 0) > 0))
+    nontrivial = sum(1 for o in complete + bounded if o["status"] in ("discharged", "failed") and (o["backend"].startswith("verus") or o.get("covers", 0) > 0 or o.get("cbmc_checks", 0) > 0))
     functions = []
     for r in results:
         for f in r["functions"]:
@@ -736,7 +736,7 @@ def write_evidence(pid, tier, seed, level, results, known_hits, viol, undec, wal
         "trusted_base": trusted,
         "evaluations": max(1, cbmc_total + sum(1 for o in complete + bounded if o["backend"].startswith("verus"))),
         "distinct_nontrivial": nontrivial,
-        "rule": "evaluations = CBMC checks + Verus verification units run; distinct_nontrivial = obligations (Verus fns/lemmas, Kani harnesses) that were discharged with a non-empty set of checks; for Kani harnesses every kani::cover! in the harness had to be SATISFIED",
+        "rule": "evaluations = CBMC checks + Verus verification units run; distinct_nontrivial = obligations (Verus fns/lemmas, Kani harnesses) that ran to a verdict (discharged or failed) with a non-empty set of checks; for Kani harnesses every kani::cover! in the harness had to be SATISFIED",
         "samples": samples,
         "functions_under_contract": functions,
         "units": [{"unit": r["unit"], "mode": r["mode"], "title": r.get("title"), "status": r["status"], "wall_s": r.get("total_wall_s"),
